@@ -1,9 +1,21 @@
+#include <stdlib.h>
 #include "ss.c"
 #include "spec_ss.h"
 rxv_u64vec* g_recip; Instruction g_instr;
 uint64_t nondet_u64(void); uint32_t nondet_u32(void); uint8_t nondet_u8(void); int nondet_int(void);
 #ifdef EVERY_SIZE
-void h_exec_all(void) { int_reg_t* r; SuperscalarProgram* prog; rxv_u64vec* rc; executeSuperscalar(r, prog, rc); __CPROVER_assert(0, "canary"); }
+uint64_t rotr(uint64_t a, unsigned int b) { return (b & 63) ? ((a >> (b & 63)) | (a << (64 - (b & 63)))) : a; }
+uint64_t mulh(uint64_t a, uint64_t b) { return __CPROVER_uninterpreted_mulh(a, b); }
+int64_t smulh(int64_t a, int64_t b) { return (int64_t)__CPROVER_uninterpreted_smulh((uint64_t)a, (uint64_t)b); }
+uint64_t randomx_reciprocal(uint32_t divisor) { __CPROVER_assert(divisor != 0 && (divisor & (divisor - 1)) != 0, "reciprocal is asked only for non-zero, non-power-of-two 32-bit divisors");
+	return __CPROVER_uninterpreted_rcp((uint32_t)divisor); }
+static Instruction* rxv_any_instruction(struct SuperscalarProgram* self, int pc) { __CPROVER_assert(pc >= 0 && (uint32_t)pc < self->size, "instruction index inside the program");
+	g_instr.opcode = nondet_u8(); g_instr.dst = nondet_u8(); g_instr.src = nondet_u8(); g_instr.mod = nondet_u8(); g_instr.imm32 = nondet_u32(); __CPROVER_assume(RXV_SS_WF(&g_instr)); return &g_instr; }
+size_t nondet_size(void);
+void h_exec_all(void) { int_reg_t* r; SuperscalarProgram* prog; static rxv_u64vec rc;
+	rc.size = nondet_size(); __CPROVER_assume(rc.size <= ((size_t)1 << 32)); rc.data = malloc(rc.size * sizeof(uint64_t)); __CPROVER_assume(rc.data != 0);
+	g_recip = nondet_int() ? &rc : (rxv_u64vec*)0;
+	executeSuperscalar(r, prog, g_recip); __CPROVER_assert(0, "canary"); }
 #else
 void h_exec_step(void) {
 	static SuperscalarProgram prog; static uint64_t table[4]; static rxv_u64vec rc; uint64_t r[8], e[8];
